@@ -16,7 +16,7 @@ def prepare(rp, ce, params):
         for s in range(trace_val(ce, f"{tag}_slots")):
             slots.append((seq(m, f"{tag}_s{s}_") + [0] * 4)[:trace_val(ce, f"{tag}_s{s}_len")])
         cb = [m.get(f"{tag}_c{i}", 0) & 255 for i in range(32)]; pb = [m.get(f"{tag}_p{i}", 0) & 255 for i in range(32)]
-        fields[f"sol{pos}"] = "|".join(" ".join(map(str, s)) for s in slots) if slots and any(slots) else ("none" if not slots else "|".join(" ".join(map(str, s)) if s else "" for s in slots))
+        fields[f"sol{pos}"] = "|".join(" ".join(map(str, s)) if s else "e" for s in slots) if slots else "none"
         fields[f"contract{pos}"] = " ".join(map(str, cb)); fields[f"predicate{pos}"] = " ".join(map(str, pb))
         sols.append((slots, cb, pb))
     S = (seq(m, "s") + [0] * 8)[:trace_val(ce, "slen")]
@@ -40,7 +40,6 @@ def prepare(rp, ce, params):
     def judge(out):
         if "panic" in out: return True, "real code panics: " + out["panic"][:200]
         r = ref()
-        if any(len(s) == 0 for s in slots) and slots: return False, "empty slots are not representable in the replay input format"
         if r is None: return out.get("result") == "ok", f"specified: error; real: {out.get('result')}"
         st = [int(x) for x in out.get("stack", "").split()]
         return (out.get("result") != "ok" or st != r), f"real {out.get('result')} stack={st}; specified stack={r}"
